@@ -299,7 +299,26 @@ pub async fn run(cx: &mut Ctx) {
                     cx.probe("model-expected-error-but-ok");
                 } else if !acked && model_ok {
                     cx.probe("valid-statement-failed");
+                    // Is the rejection about the reopened state, or would this statement be
+                    // rejected anywhere? A defect of an optimizer rule (e.g. `k = 1 AND k = NULL`
+                    // folds to an untyped NULL the filter operator panics on) is the latter and
+                    // not this property's business: the statement is retried with the optimizer
+                    // switched off, which cannot cure a damaged table.
+                    let mut cured = false;
                     if p == "C03" && reopened && s.is_write() {
+                        let _ = db.exec("PRAGMA disable_optimizer").await;
+                        let retry = db.exec(&sql).await;
+                        let _ = db.exec("PRAGMA enable_optimizer").await;
+                        quiesce().await;
+                        cx.log.absorb_journal();
+                        if retry.is_ok() {
+                            cured = true;
+                            cx.probe("statement-fails-with-optimizer-only");
+                            cx.log.push(format!("    retried without optimizer => {}", retry.brief()));
+                            model.apply(s);
+                        }
+                    }
+                    if p == "C03" && reopened && s.is_write() && !cured {
                         cx.violate(
                             Violation::new(
                                 "C03",
@@ -1031,6 +1050,18 @@ async fn check_range(cx: &mut Ctx, db: &Db, q: &Query, model: &Model, at: usize)
             }
         }
         (_, Outcome::Ok(_)) => {
+            // only the pushdown is this property's business: was a condition pushed into a scan?
+            let pushed = match db.exec(&format!("EXPLAIN {sql}")).await {
+                Outcome::Ok(rows) => {
+                    let plan = format!("{rows:?}");
+                    plan.matches("filter:").count() > plan.matches("filter: true").count()
+                }
+                _ => true,
+            };
+            if !pushed {
+                cx.probe("optimized-statement-failed-without-pushdown");
+                return;
+            }
             cx.violate(
                 Violation::new(
                     "C13",
